@@ -200,6 +200,11 @@ class Logix( Message_Router ):
         off			= 0
         if data.service in (self.RD_FRG_RPY, self.WR_FRG_RPY):
             off			= data[context].get( 'offset' ) or 0 # nonexistent/None/0 --> 0
+        # The size of a STRING/SSTRING element is only an estimate: a byte offset cannot be turned
+        # into an element index (only STRUCT elements are cut at arbitrary offsets, below).
+        assert off == 0 or attribute.parser.tag_type < STRING.tag_type \
+            or attribute.parser.tag_type == STRUCT.tag_type, \
+            "Attribute %s offset %d into elements of indeterminate size" % ( attribute, off )
         max_size		= data[context].get( 'max_size' ) or self.MAX_BYTES
 
         # Compute the extents of the full reply, given no byte offset, unlimited reply size and
